@@ -5,6 +5,8 @@ import copy
 h = copy.deepcopy(_c02.HARNESSES[0])
 h['obligations'] = ['every endorsement that follows the rules (any endorsed ancestor incl. the bootstrap block, any containing block within the settlement interval, block of proof delivered before) is accepted: setState succeeds exactly when the independent specification says the chain is valid',
                     'no VBK_ASSERT is reachable in apply / unapply / comparePopScore for any explored history (engine built-in obligation)']
-HARNESSES = [h]
+_rp = _ilu.spec_from_file_location('realspec', os.path.join(os.path.dirname(os.path.abspath(__file__)), '..', 'real', 'spec.py'))
+_real = _ilu.module_from_spec(_rp); _rp.loader.exec_module(_real)
+HARNESSES = [h] + copy.deepcopy(_real.HARNESSES)
 EXPLANATION = _c02.EXPLANATION
-ASSUMPTIONS = _c02.ASSUMPTIONS + ['MockMiner, Merkle/signature construction, publication-data context info, mempool delivery orders and payouts are outside']
+ASSUMPTIONS = _real.ASSUMPTIONS + _c02.ASSUMPTIONS + ['MockMiner, Merkle/signature construction, publication-data context info, mempool delivery orders and payouts are outside']
